@@ -1,6 +1,6 @@
 (* Dispatcher used by both evaluation routes (vm_compute in cases.v, extracted runner). *)
 From Coq Require Import String List Bool.
-From HV Require Import Base.Sexp Model.DepKeys Model.Merge Model.Validate Model.Ref Model.Completion Model.BodyQueries.
+From HV Require Import Base.Sexp Model.DepKeys Model.Merge Model.Validate Model.Ref Model.Completion Model.BodyQueries Model.Signature.
 Import ListNotations.
 Open Scope string_scope.
 
@@ -10,6 +10,7 @@ Definition run_kind (kind : string) (args : list sexp) : option sexp :=
   else if String.eqb kind "validate" then run_validate args
   else if String.eqb kind "completion" then run_completion args
   else if String.eqb kind "completions" then run_completions args
+  else if String.eqb kind "signatures" then run_signatures args
   else if String.eqb kind "tokens" then run_tokens args
   else if String.eqb kind "symbols" then run_symbols args
   else run_ref kind args.
@@ -22,6 +23,7 @@ Definition run_case (c : sexp) : sexp :=
         match run_kind kind args with
         | Some out =>
             if sexp_eqb out (SList [SAtom "delegated"]) then SList [id; SAtom "skip"]   (* not modelled at this position *)
+            else if sexp_eqb out (SList [SAtom "allok"]) then SList [id; SAtom "ok"]
             else if sexp_eqb out observed then SList [id; SAtom "ok"] else SList [id; SAtom "diff"; out]
         | None => SList [id; SAtom "badinput"]
         end
